@@ -1,7 +1,7 @@
 (** C09 — property theorems only: statement, [exact] of a lemma proved elsewhere, [Print Assumptions].
     Model: Model/C09_Stats.v (mirrors DenseGenotypeMatrix / DensePhasedGenotypeMatrix summary statistics). *)
 From Coq Require Import PrimFloat.
-From PV Require Import Lib.Common Lib.FloatK Lib.FloatDivProof Model.C09_Stats Proofs.C09_Stats.
+From PV Require Import Lib.Common Lib.FloatK Lib.FloatDivProof Model.C09_Stats Proofs.C09_Stats Gen.C09_Kernel Proofs.C09_Kernel.
 Local Open Scope Z_scope.
 
 (** Frequencies lie in [0,1] and are exactly 0 or 1 precisely when every chromosome copy carries the same
@@ -48,6 +48,34 @@ Theorem C09_phased_apoly_exact : forall (n p j : nat) (ph : list (list (list Z))
   /\ 0 <= nth j (acount_ph p ph) 0 <= nphase ph * Z.of_nat n.
 Proof. exact apoly_phased_exact. Qed.
 Print Assumptions C09_phased_apoly_exact.
+
+(** The kernel expressions of the CURRENT source (Gen/C09_Kernel.v is regenerated from
+    DenseGenotypeMatrix.py / DensePhasedGenotypeMatrix.py on every run) are the ones the model is built from:
+    the frequency is the quotient count / (ploidy*ntaxa) in both classes, the flags are the float comparisons
+    with 0.0 and 1.0, the minor-allele rule flips above 0.5, and the genotype classes number ploidy+1. *)
+Theorem C09_kernel_is_model :
+  (forall c N, k_afreq (f_of_Z c) (f_of_Z N) = afreq_f1 c N) /\ (forall c N, k_ph_afreq (f_of_Z c) (f_of_Z N) = afreq_f1 c N) /\
+  (forall ploidy p mat, map (fun c => k_afreq (f_of_Z c) (f_of_Z (k_denom ploidy (ntaxa mat)))) (acount p mat) = afreq_f ploidy p mat) /\
+  (forall n p ph, map (fun c => k_ph_afreq (f_of_Z c) (f_of_Z (k_ph_denom (nphase ph) (Z.of_nat n)))) (acount_ph p ph) = afreq_ph_f n p ph) /\
+  (forall x, k_afixed x = afixed_f1 x) /\ (forall x, k_apoly x = apoly_f1 x) /\
+  (forall x, (if k_maf_mask x then k_maf x else x) = maf_f1 x) /\ (forall x, (if k_ph_maf_mask x then k_ph_maf x else x) = maf_f1 x) /\
+  (forall (ploidy : nat) p mat nph, Z.of_nat (length (gtcount ploidy p mat)) = k_gt_nclass (Z.of_nat ploidy) nph) /\
+  (forall (ploidy : nat) p mat, Z.of_nat (length (gtcount ploidy p mat)) = k_ph_gt_nclass (Z.of_nat ploidy) (Z.of_nat ploidy)).
+Proof.
+  exact (conj k_afreq_model (conj k_ph_afreq_model (conj afreq_pipeline_model (conj afreq_ph_pipeline_model
+        (conj k_afixed_model (conj k_apoly_model (conj k_maf_model (conj k_ph_maf_model
+        (conj k_gt_nclass_model k_ph_gt_nclass_model))))))))).
+Qed.
+Print Assumptions C09_kernel_is_model.
+
+(** the boundary law stated about the generated expressions themselves: for every count 0 <= c <= ploidy*n <= 2^53
+    the flag expressions of the source, applied to the frequency expression of the source, are the textbook flags *)
+Theorem C09_kernel_boundary : forall c ploidy n : Z, 0 <= c <= k_denom ploidy n -> 0 < k_denom ploidy n <= 2^53 ->
+  let x := k_afreq (f_of_Z c) (f_of_Z (k_denom ploidy n)) in
+  k_afixed x = afixed_z c (ploidy * n) /\ k_apoly x = apoly_z c (ploidy * n) /\ k_afixed x = negb (k_apoly x)
+  /\ PrimFloat.leb 0%float x = true /\ PrimFloat.leb x 1%float = true.
+Proof. exact kernel_boundary. Qed.
+Print Assumptions C09_kernel_boundary.
 
 (** non-vacuity: a concrete 3-taxa, 3-locus diploid matrix meets the hypotheses *)
 Example C09_hyps_satisfiable : shape_ok 3 3 [[0;1;2];[0;2;2];[0;0;2]] /\ dosages_ok 2 [[0;1;2];[0;2;2];[0;0;2]]
